@@ -1,6 +1,7 @@
 package props
 
 import (
+	"fmt"
 	"go/token"
 	"go/types"
 	"strconv"
@@ -53,6 +54,144 @@ func checkC13(c *core.Ctx) {
 	r5 := c.Rule("R13.5", "T", "build loop: append only on contiguous/overlap branches, hole is an error, overlap advance depends on the trim")
 	r6 := c.Rule("R13.6", "T", "duplicates ignored; unfragmented packets passed through unchanged")
 
+	// ---- R13.7: the fragment-list key
+	r7 := c.Rule("R13.7", "T", "fragment lists are keyed by the (source, destination) flow itself together with the identification, never by the identification alone or by a hash of the flow")
+	for _, pkg := range []string{"ip4defrag", "ip6defrag"} {
+		nMaps := 0
+		for _, mem := range p.PkgScopeNames(pkg) {
+			tn, ok := mem.(*types.TypeName)
+			if !ok || !strings.HasSuffix(tn.Name(), "Defragmenter") {
+				continue
+			}
+			st, ok := tn.Type().Underlying().(*types.Struct)
+			if !ok {
+				continue
+			}
+			for i := 0; i < st.NumFields(); i++ {
+				mt, ok := st.Field(i).Type().Underlying().(*types.Map)
+				if !ok {
+					continue
+				}
+				nMaps++
+				key := pkg + "." + tn.Name() + "." + st.Field(i).Name() + "/key"
+				hasFlow, hasID := false, false
+				if ks, ok := mt.Key().Underlying().(*types.Struct); ok {
+					for j := 0; j < ks.NumFields(); j++ {
+						ft := ks.Field(j).Type()
+						if core.NamedIs(ft, "Flow") {
+							hasFlow = true
+						} else if b, ok := ft.Underlying().(*types.Basic); ok && b.Info()&types.IsInteger != 0 {
+							hasID = true
+						}
+					}
+				}
+				switch {
+				case hasFlow && hasID:
+					r7.OK(key, "", "key type "+mt.Key().String()+" holds the flow and the identification")
+				case !hasFlow:
+					r7.Violate(key, p.TypePos(tn), "the map of fragment lists is keyed by "+mt.Key().String()+", which does not contain the source/destination flow: fragments of different datagrams that share an identification (other hosts, or the reply direction) are merged into one list, and one datagram is returned with another's bytes or never returned", nil)
+				default:
+					r7.Violate(key, p.TypePos(tn), "the key "+mt.Key().String()+" has no identification field", nil)
+				}
+			}
+		}
+		if nMaps == 0 {
+			r7.Missing(pkg+"/fragment map", "no map field in a *Defragmenter type")
+		}
+	}
+
+	// ---- R13.8: no stale list head
+	r8 := c.Rule("R13.8", "T", "a list head read from the fragment map is not used after the same map entry may have been replaced (re-read instead)")
+	{
+		nL := 0
+		for _, pkg := range []string{"ip4defrag", "ip6defrag"} {
+			for _, fn := range pkgFunctions(p, pkg) {
+				var lookups []*ssa.Lookup
+				var updates []*ssa.MapUpdate
+				core.Instrs(fn, func(ins ssa.Instruction) {
+					switch x := ins.(type) {
+					case *ssa.Lookup:
+						if _, isMap := x.X.Type().Underlying().(*types.Map); isMap {
+							lookups = append(lookups, x)
+						}
+					case *ssa.MapUpdate:
+						updates = append(updates, x)
+					}
+				})
+				var sameVal func(a, b ssa.Value, d int) bool
+				sameVal = func(a, b ssa.Value, d int) bool {
+					if a == b {
+						return true
+					}
+					if d > 6 {
+						return false
+					}
+					la, okA := core.IsLoad(a)
+					lb, okB := core.IsLoad(b)
+					if okA && okB {
+						if la == lb {
+							return true
+						}
+						fa, ok1 := la.(*ssa.FieldAddr)
+						fb, ok2 := lb.(*ssa.FieldAddr)
+						return ok1 && ok2 && fa.Field == fb.Field && sameVal(fa.X, fb.X, d+1)
+					}
+					return false
+				}
+				sameMap := func(a, b ssa.Value) bool { return sameVal(a, b, 0) }
+				sameKey := func(a, b ssa.Value) bool { return sameVal(a, b, 0) }
+				for li, lk := range lookups {
+					nL++
+					// the looked-up element value (plain or comma-ok form)
+					var elem ssa.Value = lk
+					if lk.CommaOk {
+						elem = nil
+						for _, r := range *lk.Referrers() {
+							if e, ok := r.(*ssa.Extract); ok && e.Index == 0 {
+								elem = e
+							}
+						}
+					}
+					key := fmt.Sprintf("%s/lookup#%d", core.FnKey(fn), li+1)
+					if elem == nil || elem.Referrers() == nil {
+						r8.OK(key, p.InstrPos(lk), "result not used as a value")
+						continue
+					}
+					var bad ssa.Instruction
+					for _, up := range updates {
+						if !sameMap(up.Map, lk.X) || !sameKey(up.Key, lk.Index) {
+							continue
+						}
+						if core.ForwardSearch(fn, lk, func(i ssa.Instruction) bool { return i == ssa.Instruction(up) }, nil) == nil {
+							continue // the update cannot follow this lookup
+						}
+						// a direct field access through the looked-up pointer reachable from the update without a fresh lookup
+						hit := core.ForwardSearch(fn, up, func(i ssa.Instruction) bool {
+							if fa, ok := i.(*ssa.FieldAddr); ok && fa.X == elem {
+								return true
+							}
+							return false
+						}, func(i ssa.Instruction) bool {
+							l2, ok := i.(*ssa.Lookup)
+							return ok && l2 != lk && sameMap(l2.X, lk.X) && sameKey(l2.Index, lk.Index)
+						})
+						if hit != nil {
+							bad = hit
+						}
+					}
+					if bad == nil {
+						r8.OK(key, p.InstrPos(lk), "not used after a replacement of the entry")
+					} else {
+						r8.Violate(key, p.InstrPos(lk), "the list head read here is still used at "+p.InstrPos(bad)+" after the map entry may have been replaced by a fragment inserted in front: the completeness check then starts at the old head and a complete datagram is not returned", nil)
+					}
+				}
+			}
+		}
+		if nL < 3 {
+			r8.Missing("defrag/lookups", fmt.Sprintf("only %d map lookups found", nL))
+		}
+	}
+
 	// ---- R13.1
 	n1 := 0
 	for _, fn := range pkgFunctions(p, "ip4defrag") {
@@ -74,7 +213,35 @@ func checkC13(c *core.Ctx) {
 				return
 			}
 			t := termOf(fn, bo.Y, 0)
-			r1.Check(strings.Contains(t, ".IHL"), key, p.InstrPos(ins), "Length - IHL*4", "payload length is Length minus something that is not the header length: "+t)
+			if !strings.Contains(t, ".IHL") {
+				r1.Violate(key, p.InstrPos(ins), "payload length is Length minus something that is not the header length: "+t, nil)
+				return
+			}
+			// the header length must be that of the same datagram object whose Length is used
+			same := false
+			var walk func(v ssa.Value, d int)
+			walk = func(v ssa.Value, d int) {
+				if d > 8 || same {
+					return
+				}
+				if f2, ok := core.LoadsField(v, "IHL"); ok && f2.X == fa.X {
+					same = true
+					return
+				}
+				switch y := v.(type) {
+				case *ssa.BinOp:
+					walk(y.X, d+1)
+					walk(y.Y, d+1)
+				case *ssa.Convert:
+					walk(y.X, d+1)
+				case *ssa.Phi:
+					for _, e := range y.Edges {
+						walk(e, d+1)
+					}
+				}
+			}
+			walk(bo.Y, 0)
+			r1.Check(same, key, p.InstrPos(ins), "Length - IHL*4 of the same fragment", "a fragment's payload length is its Length minus the header length of a different object ("+t+"): fragments of one datagram may carry different options (options not copied on fragmentation), so bytes are trimmed or a hole is reported")
 		})
 	}
 	if n1 == 0 {
